@@ -41,6 +41,10 @@ GRAPHS = {
     'hier3':       [('d', 1, ('const',), ('const',)), ('x', 2, ('of', 'd'), ('const',)), ('y', 2, ('of', 'x'), ('of', 'd'))],
     'hier4':       [('d', 1, ('const',), ('const',)), ('s', 1, ('const',), ('const',)), ('x', 2, ('of', 'd'), ('const',)), ('y', 2, ('of', 'x'), ('of', 's'))],
     'multilike3':  [('x', 2, ('const',), ('const',)), ('y1', 2, ('of', 'x'), ('const',)), ('y2', 1, ('of', 'x'), ('const',))],
+    # two data sets on x plus a hyper-parameter of one noise model: fixing y1, y2, s leaves SEVERAL likelihoods in x and a constant factor p(s)
+    'multilike_hyper4': [('s', 1, ('const',), ('const',)), ('x', 2, ('const',), ('const',)), ('y1', 2, ('of', 'x'), ('of', 's')), ('y2', 1, ('of', 'x'), ('const',))],
+    # two conditional priors sharing one hyper-parameter d, both fixed: several likelihoods in d
+    'sharedhyper3': [('d', 1, ('const',), ('const',)), ('x', 2, ('of', 'd'), ('const',)), ('z', 1, ('of', 'd'), ('const',))],
     'independent3': [('u', 1, ('const',), ('const',)), ('w', 1, ('const',), ('const',)), ('x', 2, ('of', 'w'), ('const',))],
     'twoparent3':  [('d', 1, ('const',), ('const',)), ('x', 2, ('const',), ('const',)), ('y', 2, ('of2', 'x', 'd'), ('const',))],
 }
